@@ -169,7 +169,7 @@ def leanchecker(modules, timeout=1500):
     return {"ok": rc == 0, "why": out[-1500:] if rc else "", "modules": list(modules)}
 
 
-def validate_evidence(prop_id):
+def validate_evidence(prop_id, fatal=True):
     """Validate the evidence file against the given schema with the tooling venv's jsonschema."""
     path = os.path.join(EVIDENCE, f"{prop_id}.json")
     code = ("import json,sys,jsonschema;"
@@ -180,5 +180,6 @@ def validate_evidence(prop_id):
         return None
     if rc != 0:
         print("evidence file does not validate against EVIDENCE.schema.json:\n" + out[-1500:], file=sys.stderr)
-        sys.exit(2)
+        if fatal:
+            sys.exit(2)
     return True
